@@ -76,6 +76,9 @@ Require Import Ctpg.Proofs.UtilsCorrect.
 Require Import Ctpg.Model.LRGen.
 Require Import Ctpg.Model.LRGenWords.
 Require Import Ctpg.Proofs.LRGenWordsRefine.
+Require Import Ctpg.Proofs.GenWf.
+Require Import Ctpg.Proofs.GenClosure.
+Require Import Ctpg.Proofs.KernelWordsRefine.
 
 (* BELOW THE GENERATOR MIRROR (word-level mirror of namespace stdex, tied to the real templates by kernel-checked observations): for every size N and EVERY sequence of cbitset operations, test(j) answers membership in the set of indices the operations describe - the 64-bit word arithmetic (idx / 64, 1 << idx % 64, masks) is exact across word boundaries *)
 Theorem C01_item_and_lookahead_sets_are_sets_of_indices :
@@ -142,6 +145,18 @@ Theorem C01_an_out_of_range_symbol_throws_at_word_level :
   syms_in_rangeb exbad_g = false /\ (do x <- w_nterm_empty exbad_g;; w_nterm_first exbad_g x) = Throw /\ nterm_first exbad_g (nterm_empty exbad_g) = [[false; false]].
 Proof. exact @out_of_range_throws. Qed.
 Print Assumptions C01_an_out_of_range_symbol_throws_at_word_level.
+
+(* LINK (state identity): `states[i].kernel == kernel` on the item-index bitsets the real code builds with set(make_situation_idx(..)) decides exactly LRGen.same_items on the kernels as item lists - for every grammar and all kernels of in-range items (index injectivity + clean padding) *)
+Theorem C01_state_identity_on_words_is_the_models_same_items :
+  forall g : grammar, wfx_facts g -> forall (k1 k2 : list item) (b1 b2 : cbitset), Forall (item_okP g) k1 -> Forall (item_okP g) k2 -> w_kernel g k1 = Ok b1 -> w_kernel g k2 = Ok b2 -> cb_eqb b1 b2 = same_items k1 k2.
+Proof. exact @kernel_equality_is_same_items. Qed.
+Print Assumptions C01_state_identity_on_words_is_the_models_same_items.
+
+(* the bitset built from a kernel has exactly the bits of its items *)
+Theorem C01_kernel_bitset_is_the_item_set :
+  forall g : grammar, wfx_facts g -> forall k : list item, Forall (item_okP g) k -> exists b : cbitset, w_kernel g k = Ok b /\ cb_wf b /\ cb_clean b /\ cb_n b = N.of_nat (address_space g) /\ (forall i : item, item_okP g i -> cb_mem b (N.of_nat (item_idx g i)) = mem_item i k) /\ (forall j : nat, j < address_space g -> cb_mem b (N.of_nat j) = true -> exists i : item, In i k /\ item_idx g i = j).
+Proof. exact @w_kernel_ok. Qed.
+Print Assumptions C01_kernel_bitset_is_the_item_set.
 
 (* utils::str_equal on C strings = equality of the strings up to their terminators, nothing behind a terminator is read *)
 Theorem C01_symbol_names_are_compared_as_whole_strings :
